@@ -262,7 +262,8 @@ def case_strategy(draw: Any) -> Any:
         q = [["q", draw(_pos_rat())], theta, draw(_azimuth(plane, sx, sy))]
     vec = [draw(_coef()) for _ in range(3)]
     sv = [draw(_nz_rat()), draw(_nz_rat())]
-    return {"sys": system, "q": q, "vec": vec, "sv": sv, "eq": draw(st.sampled_from((True, False, False, False, False, False)))}
+    return {"sys": system, "q": q, "vec": vec, "sv": sv, "eq": draw(st.sampled_from((True, False, False, False, False, False))),
+        "container": draw(st.sampled_from(("list", "list", "tuple", "generator", "map")))}
 
 
 def valid(case: dict[str, Any]) -> bool:
@@ -480,8 +481,20 @@ def _judge(case: dict[str, Any]) -> list[tuple[str, str]]:
         guarded(f"scalars:{tag}", scalars)
 
     # ---- (3) base-vector tables -------------------------------------------------------------
-    label = {n: AppliedPoint([to_sym(x) for x in qh[typ(n)]], S[n]) for n in S if n != "s"}
-    label[A] = AppliedPoint(exact[A], S[A])
+    # the coordinates reach AppliedPoint in a generated kind of container (a one-shot iterator is a legal Iterable)
+    container = case.get("container", "list")
+
+    def mkpoint(values: list[Any], system: Any) -> Any:
+        if container == "tuple":
+            return AppliedPoint(tuple(values), system)
+        if container == "generator":
+            return AppliedPoint((v for v in values), system)
+        if container == "map":
+            return AppliedPoint(map(sympy.sympify, values), system)
+        return AppliedPoint(list(values), system)
+
+    label = {n: mkpoint([to_sym(x) for x in qh[typ(n)]], S[n]) for n in S if n != "s"}
+    label[A] = mkpoint(exact[A], S[A])
     frames = {t: frame(t, qh[t]) for t in TYPES}
     M: dict[tuple[str, str], Any] = {}
     for P, Q in pairs:
